@@ -186,7 +186,8 @@ ABS_VIEWS = {
 GRAPH_CONSTS = {
     "HttpStream": lambda rq, rs: {"ReqStreamC": bgen.tla_bool(rq), "RespStreamC": bgen.tla_bool(rs), "NS": 1, "NR": 2,
                                   "NH": 3, "MaxCancel": 1, "CancelKinds": '{"cancel"}', "MaxHdr": 1, "MaxTrl": 1,
-                                  "Statuses": "{0, 1}", "Closers": '{"cs"}', "Known <-": "KnownOpen"},
+                                  "Statuses": "{0, 1}", "Closers": '{"cs"}', "Known <-": "KnownOpen",
+                                  "OverrunN": 0, "DrainFirst": "FALSE"},
     "InprocStream": lambda rq, rs: {"ReqStreamC": bgen.tla_bool(rq), "RespStreamC": bgen.tla_bool(rs), "NS": 1, "NR": 2,
                                     "NH": 3, "MaxCancel": 1, "CancelKinds": '{"cancel"}', "Cap": 1, "MaxHdr": 1,
                                     "MaxTrl": 1, "Statuses": "{0, 1}", "Closers": '{"cs"}', "Known <-": "KnownOpen"},
